@@ -4,7 +4,7 @@ C18 lemmas, layer 5: the history invariant and its preservation by the sequentia
 append and by a Delete / Update commit whose arm is `moveFrags` on the latest fragments.
 -/
 namespace LanceModel.C18
-open LanceModel.Table LanceModel.C17 List
+open LanceModel.Table LanceModel.C17Base List
 
 /-- versions are dense: the list of manifests (newest first) carries versions `n, n-1, …, 1` -/
 def Versions : List Manifest → Prop
